@@ -87,6 +87,9 @@ def run(ctx):
 
     wba = BA.of(W)
     ex = wba.switches_on_call(r"std::path::Path::exists")
+    if not ex:
+        # the test may sit in a helper that hands its answer back (`print_candidate(..) -> bool`)
+        ex = common.switches_on_call_value(W, r"std::path::Path::exists")
     pr = wba.calls(r"std::io::stdio::_print")
     nexts = wba.calls(r".*::iterator::Iterator>?::next")
     if ctx.ob("R13.2", "%s|anchors" % W.key, len(ex) == 1 and bool(pr) and bool(nexts), where=W.span, detail="exists test, print and loop located"):
